@@ -273,6 +273,9 @@ def cases(tier, seed):
     # histories: the frames of a recording pass through the tools one after
     # another in one interpreter
     hops = ["%s@%s" % (t, v) for t in HIST_TOOLS for v in HIST_VARIANTS]
+    # (the frames are built once here, in the driver, which runs no tool:
+    # workers and their per-case children inherit them)
+    _hist_frames()
     refs = history_refs(_hist_op, hops)
     if tier == "quick":
         # every ordered pair over the whole alphabet; length 3 inside one
